@@ -30,6 +30,24 @@ DESC = {
  "c10_bu_upstream_polled_after_none": ("C10", "BufferUnordered defers dropping the ended upstream until after the in-flight queue is polled (which returns early)", "upstream ends while a future is still in flight: upstream is polled again after None"),
  "c05_slotmap_last_child_deferred_drop": ("C05", "PinSlotMap::remove defers dropping the last occupant until the next insert", "a child completing as the only live entry of its set is not dropped when its output is returned"),
  "c12_merge_requeues_all_on_end": ("C12", "MergeBounded re-queues every source of the group when one source ends", "one source returns None while others are pending and un-woken: each gets an unprompted poll"),
+ "c01_notify_only_on_wake_by_value": ("C01", "waker_list.rs child vtable: wake_by_ref enqueues the child but no longer notifies the stored task waker (only the by-value wake does)", "any child future that wakes through `waker.wake_by_ref()` while the collection is parked: the child is queued but the task is never rescheduled"),
+ "c15_slotmap_free_head_min": ("C15", "PinSlotMap::remove: free_head = min(old free_head, key) instead of key", "remove of a slot with a larger index than the current free head: the freed slot is linked to the old head but never reachable, later inserts overwrite / the collection refuses pushes although it has room"),
+ "c04_orderwrapper_signed_cmp": ("C04", "OrderWrapper::cmp compares the positions as isize", "two outputs parked out of turn whose positions straddle the sign bit (after push_front wrapped below zero, or after 2^63 pushes): the heap releases them in the wrong order or withholds the front one"),
+ "c09_for_each_no_refill_after_completion": ("C09", "for_each_concurrent: after a future completes the loop no longer goes round to refill from the live upstream", "a future completes while upstream still has items: returns Pending with a free slot and without having polled upstream again"),
+ "c16_try_ordered_counts_running_only": ("C16", "TryBufferedOrdered fill guard counts only running futures, not outputs parked out of turn", "head-of-line future stalled while later ones complete: more than n futures+outputs held"),
+ "c04_join_all_swaps_batch": ("C04", "JoinAll::poll swaps outputs when two futures complete in one poll in descending slot order", "futures 1 then 0 woken and both completing in the same poll: output vector has them swapped"),
+ "c15_fu_is_empty_last_group": ("C15", "FuturesUnordered::is_empty looks only at the newest group", "newest group drained while an older group still holds futures: is_empty() is true with len() > 0"),
+ "c11_mu_push_drains_older_groups": ("C11", "MergeUnbounded::push discards the older groups when the newest group is empty", "push after the newest group's streams all ended while an older group still holds live streams: those streams are dropped and their items never yielded"),
+ "c07_join_all_repoll_len_from_capacity": ("C07", "JoinAll::poll builds the result Vec with Vec::from_raw_parts(ptr, queue.capacity(), ..) instead of converting the taken buffer", "join_all polled again after it returned Ready: a Vec of n elements over the dangling placeholder buffer - values no input produced"),
+ "c08_fu_growth_relocates_old_groups": ("C08", "FuturesUnordered::push growth path moves the remaining futures of all older groups into the new group (new PinSlotMap::into_values)", "two or more groups, a non-last group holds an already-polled pending child, a push finds the last group full: that child is polled and dropped at a new address"),
+ "c17_fo_size_hint_upper_ignores_parked": ("C17", "FuturesOrdered::size_hint = inner hint with parked outputs added to the lower bound only", "an output parked behind a slower head future: upper bound below the number of items still to be yielded"),
+ "c05_mb_finished_budget_requeues": ("C05", "MergeBounded::poll_next retires at most 4 ended sources per call; the 5th is re-queued, the task woken and Pending returned", "five or more sources answering None within one poll_next: the fifth is not dropped by that call and is polled again after None"),
+ "c12_mb_requeues_pending_source": ("C12", "MergeBounded::poll_next re-arms a source through its own waker for every answer except None (also for Pending)", "any source answering Pending: re-queued without anybody invoking its waker, re-polled up to the budget in the same call and on every later poll"),
+ "c14_fu_wakes_after_group_retired": ("C14", "FuturesUnordered::poll_next wakes its own task before returning Pending whenever a group returned Ready(None) during the scan", "newest group empty (kept for its allocation) while an older group holds a sleeping child: every Pending poll wakes the task, busy loop"),
+ "c18_mu_swap_remove_group": ("C18", "MergeUnbounded::poll_next removes a drained group with swap_remove", "three or more groups, a non-last group drains: the largest group is no longer last, later pushes allocate a new group although the largest has room and the largest is discarded when it drains: allocations grow linearly with processed streams"),
+ "c02_fub_empty_check_after_drain": ("C02", "FuturesUnorderedBounded::poll_inner_no_remove tests is_empty() only once the ready queue has been drained", "empty collection whose ready queue holds more than 61 stale wake-ups of finished children: Pending instead of Ready(None)"),
+ "c03_wake_releases_lock_after_free": ("C03", "waker_list.rs by-value wake inlined: the slot's wake_lock guard now lives until after the reference count is given back", "collection dropped, last outstanding child waker consumed with wake(): the block is freed and then the guard's drop writes the lock byte inside it (use after free)"),
+ "c10_bo_stale_exhausted_snapshot": ("C10", "BufferedOrdered::poll_next decides termination from a snapshot of stream.is_none() taken at the top of the call", "upstream ends in a poll in which the queue is empty or drains: Pending with nobody holding the waker instead of None"),
  "d1_ordered_capacity_zero": ("C15", "revert of fix d0831c9", "FuturesOrderedBounded::new(0) / FuturesOrdered::with_capacity(0) / buffered_ordered(0)"),
  "d2_join_all_leak": ("C06", "revert of fix d795b67", "join_all / try_join_all dropped while pending with outputs already collected"),
  "d3_try_join_all_uninit": ("C07", "revert of fix 1856dee", "try_join_all polled again after Err"),
